@@ -10,6 +10,8 @@
 //!      5 bounds g t          [lb1 lb2 lb3 ub1 ub2 ub3] bits
 //!      6 raw g t             container / aux table in storage order
 //!      7 ser g t             serialized bytes
+//!      8 rt g t              sketch := deserialize(serialize(sketch))
+//!      9 deser g t bytes..   sketch := deserialize(bytes) -> [1] | ERR
 //!
 //! union cases: cfg = [lg_max_k, 1]; a table of 8 source sketches and one HllUnion
 //!      10 new i lg_k t       slot i := HllSketch::new
@@ -27,7 +29,7 @@
 use datasketches::common::NumStdDev;
 use datasketches::hll::{HllSketch, HllType, HllUnion};
 
-use crate::{fbits, Family, Ob, PANIC};
+use crate::{fbits, Family, Ob, ERR, PANIC};
 
 pub struct Fam {
     sk: Vec<HllSketch>,
@@ -157,6 +159,10 @@ impl Family for Fam {
         Fam { sk, slots: vec![], union: None }
     }
 
+    fn parse_len(&self, code: i64, a: &[i128]) -> Option<usize> {
+        if self.union.is_none() && code == 9 { Some(a.len().saturating_sub(2)) } else { None }
+    }
+
     fn step(&mut self, code: i64, a: &[i128]) -> Ob {
         if self.union.is_some() {
             return self.ustep(code, a);
@@ -201,6 +207,27 @@ impl Family for Fam {
                 }
             }
             7 => self.sk[g * 3 + a[1] as usize].serialize().iter().map(|b| *b as i128).collect(),
+            8 => {
+                let i = g * 3 + a[1] as usize;
+                match HllSketch::deserialize(&self.sk[i].serialize()) {
+                    Ok(s) => {
+                        self.sk[i] = s;
+                        vec![]
+                    }
+                    Err(_) => vec![ERR],
+                }
+            }
+            9 => {
+                let i = g * 3 + a[1] as usize;
+                let bytes: Vec<u8> = a[2..].iter().map(|b| *b as u8).collect();
+                match HllSketch::deserialize(&bytes) {
+                    Ok(s) => {
+                        self.sk[i] = s;
+                        vec![1]
+                    }
+                    Err(_) => vec![ERR],
+                }
+            }
             _ => vec![PANIC],
         }
     }
